@@ -108,22 +108,24 @@ PROPS['C07'] = {
     'queries': [
         dict(name='cv_notify_W1', kernel='C07_condvar.cpp', prefix='cvn_', mode='res', lower_defs=['-DNWAITERS=1'], shim='shim_sync', inline=20000, R=3, BMAX=60, unwind=3, covers=[0], timeout=2400),
         dict(name='cv_timed', kernel='C07_condvar.cpp', prefix='cvt_', mode='res', lower_defs=['-DNWAITERS=1'], shim='shim_sync', inline=20000, R=3, BMAX=60, unwind=3, covers=[0], timeout=2400),
-        dict(name='cv_stop_token', kernel='C07_condvar.cpp', prefix='cvs_', mode='res', lower_defs=['-DNWAITERS=1'], shim='shim_sync', inline=20000, R=3, BMAX=60, unwind=3, covers=[0], timeout=2400,
-             noinline=[CV_ABORT_ALL + '.*'], cut=[CV_ABORT_ALL]),
+        dict(name='cv_stop_token', kernel='C07_condvar.cpp', prefix='cvs_', mode='res', lower_defs=['-DNWAITERS=1'], shim='shim_sync', inline=20000, R=3, BMAX=60, unwind=3, covers=[0], timeout=14000,
+             noinline=[CV_ABORT_ALL + '.*'], cut=[CV_ABORT_ALL], tiers=('thorough',)),
         dict(name='cv_notify_W2', kernel='C07_condvar.cpp', prefix='cvn_', mode='res', lower_defs=['-DNWAITERS=2'], shim='shim_sync', inline=20000, R=3, BMAX=60, unwind=4, covers=[0], timeout=6000, tiers=('thorough',)),
         dict(name='cv_notify_W1_pikamutex', kernel='C07_condvar.cpp', prefix='cvn_', mode='res', lower_defs=['-DNWAITERS=1', '-DUSE_PIKA_MUTEX'], shim='shim_sync', inline=20000, R=3, BMAX=60, unwind=3, covers=[0], timeout=6000, tiers=('thorough',)),
     ],
 }
 
-def _c09(name, prefix, npart=2, tiers=('quick', 'thorough'), R=3, unwind=3, timeout=2400):
-    return dict(name=name, kernel='C09_latch_barrier.cpp', prefix=prefix, mode='res', lower_defs=['-DNPART=%d' % npart], shim='shim_sync', inline=20000, R=R, BMAX=60,
+def _c09(name, prefix, npart=2, tiers=('quick', 'thorough'), R=3, unwind=3, timeout=2400, defs=()):
+    return dict(name=name, kernel='C09_latch_barrier.cpp', prefix=prefix, mode='res', lower_defs=['-DNPART=%d' % npart] + list(defs), shim='shim_sync', inline=20000, R=R, BMAX=60,
                 unwind=unwind, covers=[0], timeout=timeout, tiers=tiers)
 
 PROPS['C09'] = {
     'assumptions': SYNC_ASSUMPTIONS + ['latch/barrier with 2 (quick) or 3 (thorough) participants; barrier: 2 phases, starting ticket of the tournament tree (hash of the thread id) arbitrary; '
-                                       'busy_wait_timeout path of barrier::wait and arrive_and_drop are outside the quick claim.'],
+                                       'arrive_and_drop: one of two participants drops in phase 0; the busy_wait_timeout path of barrier::wait is outside the claim.'],
     'queries': [
         _c09('latch_P2', 'lat_'), _c09('barrier_P2', 'bar_', unwind=4), _c09('event_T3', 'evt_'), _c09('call_once_T2', 'onc_'),
+        _c09('barrier_P3_1phase', 'bar_', 3, unwind=4, timeout=3000, defs=['-DNPHASE=1']),
+        _c09('barrier_drop_P2', 'bard_', unwind=4),
         _c09('latch_P3', 'lat_', 3, ('thorough',), timeout=7000), _c09('barrier_P3', 'bar_', 3, ('thorough',), R=4, unwind=5, timeout=10000),
     ],
 }
@@ -165,6 +167,10 @@ PROPS['C13'] = {
     ],
 }
 
+# ~sender() of an access sender that was never connected calls start_detached(std::move(*this)); the scenarios below connect every sender,
+# so the start_detached operation-state holder is kept out of line and cut (asserted unreachable) - it doubled the code and its untyped
+# allocation polluted CBMC's points-to sets (byte-level updates of vtables/typeinfo objects, > 26 GB during SSA conversion)
+SD_HOLDER = '_ZN4pika21start_detached_detail22operation_state_holder'
 PROPS['C04'] = {
     'assumptions': SYNC_ASSUMPTIONS[:1] + [
         'Real async_rw_mutex.hpp (async_rw_mutex<void>): shared states, op_state_head CAS list, done(), libstdc++ shared_ptr control blocks with atomic reference counts (as emitted into the IR).',
@@ -172,10 +178,10 @@ PROPS['C04'] = {
         'dropped-unstarted senders, wrapper copies and the wrapped value (async_rw_mutex<T>) are not covered yet.',
     ],
     'queries': [
-        dict(name='rw_two_accesses', kernel='C04_rw_mutex.cpp', prefix='rw_', mode='res', lower_defs=['-DNACC=2'], shim='shim_sync', inline=20000, R=3, BMAX=100, unwind=3, covers=[0], timeout=3000,
-             unwind_rules=[(r'^verif_rt_strcmp', 64)]),
-        dict(name='rw_three_accesses', kernel='C04_rw_mutex.cpp', prefix='rw_', mode='res', lower_defs=['-DNACC=3'], shim='shim_sync', inline=20000, R=3, BMAX=100, unwind=4, covers=[0], timeout=10000,
-             unwind_rules=[(r'^verif_rt_strcmp', 64)], tiers=('thorough',)),
+        dict(name='rw_two_accesses', kernel='C04_rw_mutex.cpp', prefix='rw_', mode='res', lower_defs=['-DNACC=2'], shim='shim_sync', inline=20000, R=3, BMAX=100, unwind=3, covers=[0], timeout=3000, mem_gb=28,
+             unwind_rules=[(r'^verif_rt_strcmp', 64)], noinline=[SD_HOLDER + 'I.*EC[12].*'], cut=[SD_HOLDER]),
+        dict(name='rw_three_accesses', kernel='C04_rw_mutex.cpp', prefix='rw_', mode='res', lower_defs=['-DNACC=3'], shim='shim_sync', inline=20000, R=3, BMAX=100, unwind=4, covers=[0], timeout=10000, mem_gb=40,
+             unwind_rules=[(r'^verif_rt_strcmp', 64)], tiers=('thorough',), noinline=[SD_HOLDER + 'I.*EC[12].*'], cut=[SD_HOLDER]),
     ],
 }
 
